@@ -23,6 +23,22 @@ def gen_images(chk, hscan, n):
     return imgs
 
 
+def run_sharded(binary, lines, jobs=16, timeout=1800):
+    """run_lines over `jobs` processes (one command per line, one result block per command, order kept)"""
+    from concurrent.futures import ThreadPoolExecutor
+    n = len(lines)
+    if n < 64:
+        return vlib.run_lines(binary, lines, timeout=timeout)[0]
+    step = (n + jobs - 1) // jobs
+    chunks = [lines[i:i + step] for i in range(0, n, step)]
+    with ThreadPoolExecutor(max_workers=jobs) as ex:
+        outs = list(ex.map(lambda c: vlib.run_lines(binary, c, timeout=timeout)[0], chunks))
+    res = []
+    for o in outs:
+        res.extend(l for l in o if l != "")
+    return res
+
+
 def sections(img):
     nb = img[5]
     pos = 6 + 12 * nb
@@ -68,7 +84,7 @@ def run(chk):
     hscan = build.harness("h_scan")
     hload = build.harness("h_load")
     model = vlib.build_model()
-    nimg = 3 if tier == "quick" else 12
+    nimg = 3 if tier == "quick" else 8
     imgs = gen_images(chk, hscan, nimg)
     chk.note(images=len(imgs))
     cases = []   # (label, bytes, kind, origin)
@@ -83,7 +99,7 @@ def run(chk):
                 for dd in (-9, -8, -7, -1, 0, 1, 7, 8, 9):
                     if 0 <= x + dd < len(img):
                         cuts.add(x + dd)
-            for _ in range(300 if tier == "quick" else 3000):
+            for _ in range(300 if tier == "quick" else 1500):
                 cuts.add(chk.rng.below(len(img)))
             # the relocation section is where a cut is hardest to see: all of it
             for x in range(b[-2], len(img)):
@@ -107,7 +123,7 @@ def run(chk):
                 b[pos] = chk.rng.below(256)
             cases.append(("flip%d" % i, bytes(b), "flip", cid))
     # implementation
-    lines, err = vlib.run_lines(hload, ["load " + hx(bs) for _, bs, _, _ in cases], timeout=1800)
+    lines = run_sharded(hload, ["load " + hx(bs) for _, bs, _, _ in cases])
     impl = []
     cur = None
     for l in lines:
@@ -126,13 +142,16 @@ def run(chk):
             elif l.startswith("crash"):
                 cur["crash"] = l
     # model
-    mlines, _ = vlib.run_lines(model, ["load current " + hx(bs) for _, bs, _, _ in cases], timeout=1800)
+    mlines = run_sharded(model, ["load current " + hx(bs) for _, bs, _, _ in cases])
     K = vlib.consts()
     RC = {"invalid_file": K["ERROR_INVALID_FILE"], "unsupported_version": K["ERROR_UNSUPPORTED_FILE_VERSION"],
           "corrupt_file": K["ERROR_CORRUPT_FILE"], "no_memory": K["ERROR_INSUFFICIENT_MEMORY"]}
     kinds = {}
     nontriv = set()
     agree = 0
+    mlines = [l for l in mlines if l != ""]
+    if len(impl) != len(cases) or len(mlines) != len(cases):
+        raise RuntimeError("C17: %d cases but %d implementation results and %d model results" % (len(cases), len(impl), len(mlines)))
     for (label, bs, kind, origin), im, mo in zip(cases, impl, mlines):
         kinds[kind] = kinds.get(kind, 0) + 1
         im = im or {}
@@ -155,6 +174,10 @@ def run(chk):
                               "corrupted header/table (%s) loads successfully with different content" % label, replay)
         elif kind in ("random", "flip") and crashed:
             chk.violation("malformed-crash", "malformed file (%s) crashes: %s" % (label, im["crash"]), replay)
+        # theorem accepted_file_is_saved_image, on the implementation: an accepted file is the written image of what was loaded (+ unread tail)
+        if accepted and not crashed and im.get("resave") is not None and not mo.startswith("bad") and not hx(bs).startswith(im["resave"]):
+            chk.violation("accepted-not-saved-image", "file accepted (%s) but it is not the image the saver writes for the loaded rules (+ unread tail): "
+                          "header/table/sections of the input differ from the re-saved bytes" % label, replay)
         if accepted and im.get("smoke", 0) not in (0,) and not crashed:
             chk.violation("smoke", "loaded rules fail a scan (%s): rc=%s" % (label, im.get("smoke")), replay)
         # --- correspondence model <-> implementation
